@@ -422,7 +422,7 @@ Section BatchProofs.
   Variable h : str -> cell.
   Variable T : frame -> list (str * (nat -> cell)).
   Variable rnd : str -> nat -> cell.
-  Variable sample : list (list str) -> list (list str).
+  Variable sample : bool -> list (list str) -> list (list str).
   Variable perm : str -> list str -> list str.
 
   Lemma step_transform_ok : append_step (transform T).
